@@ -32,6 +32,11 @@ def node_pos(p0='dp0', /, a='da', *va, k='dk', **kw):
   return vfx.rec('node_pos', locals())
 
 
+def node_pos2(p0='dp0', /, a='da', *va):
+  """Positional-only + *args, no **kwargs."""
+  return vfx.rec('node_pos2', locals())
+
+
 def node_mut(x=None, y=(1, 2)):
   return vfx.rec('node_mut', locals())
 
